@@ -57,6 +57,10 @@ def shards(tier):
     return 8 if tier == "quick" else 16
 
 
+# a defect that hangs many programs costs 12-20 s of dwell each: do not lose the shard (and its verdicts) to the default
+TIMEOUT = {"quick": 420, "thorough": 2400}
+
+
 def S(b):
     return struct.pack(">I", len(b)) + b
 
@@ -1064,6 +1068,30 @@ def client_case(ctx, idx):
             frng = random.Random(rng.getrandbits(32))
             bench.wire.frag = lambda n, avail, frng=frng: frng.choice([1, 3, n, n, avail, 7])
         prog = ClientProgram(bench, root, steps, rng.getrandbits(32))
+        if rng.random() < 0.35:
+            # schedule perturbation: a paramiko-internal thread (prefetch) that has just written a request is
+            # descheduled until the reader has consumed the answer (or 40 ms) - "late return from sock.send()"
+            desc["perturb"] = "async sender parked after send"
+
+            def after_send(data, bench=bench, prog=prog):
+                me = threading.current_thread()
+                if me is prog.t or me in prog.helpers:
+                    return
+                ctx.count("perturbed_async_sends")
+                rid = struct.unpack(">I", data[5:9])[0] if len(data) >= 9 else None
+                end = time.monotonic() + 0.04
+                while time.monotonic() < end and rid not in answered:
+                    time.sleep(0.0005)
+                if rid in answered:
+                    ctx.count("perturbed_async_sends_answered_before_send_returned")
+                    n0 = bench.wire.client_end.nrecv
+                    end = time.monotonic() + 0.01
+                    while time.monotonic() < end and bench.wire.client_end.nrecv == n0:
+                        time.sleep(0.0005)
+
+            answered = set()
+            bench.wire.on_packet = lambda rec: answered.add(rec["id"]) if rec["dir"] == "s2c" else None
+            bench.wire.client_end.after_send = after_send
         prog.t.start()
         verdict = control(ctx, bench, prog, policy, desc)
         ctx.count("client_programs_run")
@@ -1160,6 +1188,9 @@ def control(ctx, bench, prog, policy, desc):
                 frames = sys._current_frames()
                 parked = all(frames.get(t.ident) is None
                              or (paramiko_frames(frames[t.ident]) or ["?"])[-1] == "_prefetch_thread" for t in others)
+                # never keep frame objects: a materialised frame that outlives its call keeps the call's locals alive
+                # (e.g. _read_response's `fileobj`), which would change when SFTPFile.__del__ runs
+                del frames
                 need = 1.0 if (not others or parked) else 10.0
                 if bench.npackets() == n1 and now - stable_since >= need and not prog.done:
                     return blocked(ctx, bench, prog, desc, nreq, nresp, others)
@@ -1175,16 +1206,20 @@ def busy_stack(prog):
     """(thread, paramiko function names) of the program thread that is inside paramiko (reader preferred)."""
     frames = sys._current_frames()
     best = (prog.t, [])
-    for t in [prog.t] + list(prog.helpers):
-        fr = frames.get(t.ident)
-        if fr is None:
-            continue
-        names = paramiko_frames(fr)
-        if "_read_packet" in names:
-            return (t, names)
-        if names and not best[1]:
-            best = (t, names)
-    return best
+    try:
+        for t in [prog.t] + list(prog.helpers):
+            fr = frames.get(t.ident)
+            if fr is None:
+                continue
+            names = paramiko_frames(fr)
+            del fr
+            if "_read_packet" in names:
+                return (t, names)
+            if names and not best[1]:
+                best = (t, names)
+        return best
+    finally:
+        frames.clear()
 
 
 def stuck(ctx, bench, prog, desc, quiet):
@@ -1318,5 +1353,12 @@ def run(ctx):
     ctx.require("requests_unsupported_extension", ctx.pick(200, 2000))
     ctx.require("requests_range_past_EOF", ctx.pick(40, 400))
     ctx.require("client_programs_run", ctx.pick(200, 3000))
+    ctx.require("application_faults_raised", ctx.pick(300, 3000))
+    ctx.require("application_faults_in_close", ctx.pick(40, 400))
+    ctx.require("session_ids_watched_for_late_duplicates", ctx.pick(8000, 80000))
+    ctx.require("client_files_abandoned_without_close", ctx.pick(30, 400))
+    ctx.require("client_unexpected_responses_seen", ctx.pick(40, 400))
+    ctx.require("client_programs_family_abandon-last-ref", ctx.pick(2, 40))
+    ctx.require("perturbed_async_sends_answered_before_send_returned", ctx.pick(50, 800))
     ctx.require("client_pipelined_write_requests", ctx.pick(10000, 200000))
     ctx.require("gate_releases", ctx.pick(500, 10000))
